@@ -163,6 +163,20 @@ func runImpl[F any](name string, tr seq.Seq[F, int], xs []int, depth int) drv.Re
 	if w.observe(s, xs, script, "right after New") {
 		w.explore(s, xs, script, 0)
 	}
+	if len(xs) >= 2 && len(r.Viols) == 0 {
+		// New called twice with one argument slice: the arguments are read, not rearranged - the caller's slice and both
+		// sequences are what they were (the first sequence is observed only after the second was built)
+		again := append([]int{}, xs...)
+		sc := []string{fmt.Sprintf("a := New(args...) with args = %s", brief(xs)), "b := New(args...)"}
+		a1 := tr.New(again...)
+		if fmt.Sprint(again) != fmt.Sprint(xs) {
+			w.viol("new-args-modified", sc[:1], "New rearranged the caller's argument slice into %s", brief(again))
+		}
+		a2 := tr.New(again...)
+		if len(r.Viols) == 0 && w.observe(a2, xs, sc, "b") && w.observe(a1, xs, sc, "a, after b was built") && fmt.Sprint(again) != fmt.Sprint(xs) {
+			w.viol("new-args-modified", sc, "the caller's argument slice now holds %s", brief(again))
+		}
+	}
 	if len(xs) <= 3 && len(r.Viols) == 0 {
 		// the same start from an argument slice with 256 spare slots (an empty one is then non-nil and has capacity):
 		// what a caller gets from make([]T, 0, n) followed by a few appends
